@@ -299,7 +299,7 @@ def _decision_table_structural(ctx, r):
     return rows
 
 
-def rule_submit_discipline(ctx, r):
+def _submit_discipline_structural(ctx, r):
     """At most one submit per path; nothing is evaluated after it; the submit passes the list built in the dependency loop."""
     outer, inner, sem, rows = explore_schedule(ctx)
     con = f"{inner.module.relpath}::{inner.qual}"
@@ -448,3 +448,12 @@ def explore_should_run(ctx):
     outs = Ex(sem).run(State())
     ctx.shared["should_run_paths"] = (fi, sem, outs)
     return fi, sem, outs
+
+
+def _schedule_w(ctx):
+    from .evalhelpers import cached_witness, schedule_witness
+    return cached_witness(ctx, "schedule", lambda c: schedule_witness(c, full=False))
+
+
+def rule_submit_discipline(ctx, r):
+    return ctx.guarded(r, _submit_discipline_structural, _schedule_w(ctx), "src/gwf/scheduling.py::schedule")
